@@ -55,6 +55,11 @@ def defarray(st, var, body, prefix='arr'):
     forall var. c[var] == body (trigger c[var]) added to the path condition: equivalent, but keeps z3
     Lambda terms out of the heap, which the solver handles far better in the presence of quantified
     invariants."""
+    if BOUND is not None and st is not None and var.sort() == I:
+        # bounded refutation mode: only positions 0..BOUND matter, define them one by one (ground)
+        c = fresh(prefix, z3.ArraySort(I, body.sort()))
+        st.assume(*[c[k] == z3.substitute(body, (var, z3.IntVal(k))) for k in range(-1, BOUND + 2)])
+        return c
     if ARRAY_DEFS == 'lambda' or BOUND is not None or st is None:
         return z3.Lambda([var], body)
     c = fresh(prefix, z3.ArraySort(var.sort(), body.sort()))
